@@ -1427,7 +1427,7 @@ int main(int argc, char** argv)
 #define LD(T) load_tests<T>(rng, thorough);
     LD(const int) LD(const long) LD(const short) LD(const unsigned long) LD(const long long)
     LD(char) LD(signed char) LD(unsigned char) LD(short) LD(unsigned short) LD(int) LD(unsigned) LD(long)
-      LD(unsigned long) LD(long long) LD(unsigned long long) LD(float) LD(double) LD(char16_t) LD(char32_t)
+      LD(unsigned long) LD(long long) LD(unsigned long long) LD(float) LD(double) LD(char16_t) LD(char32_t) LD(testEnum)
   } else if (mode == "ptr") {
     ptr_tests(rng, thorough);
   } else if (mode == "chain") {
